@@ -26,7 +26,19 @@ def _bind_repo():
         raise core.HarnessError(
             'txdbus imported from %s, not from the working tree %s'
             % (where, repo))
-    # quiet twisted's log observers: nothing must be written by log.msg/err
+    # quiet twisted's default log observer ("Unhandled error in Deferred"
+    # for no-reply calls whose implementation fails is expected noise)
+    try:
+        from twisted.python import log
+        if log.defaultObserver is not None:
+            log.defaultObserver.stop()
+            log.defaultObserver = None
+        from twisted.logger import globalLogBeginner
+        globalLogBeginner.beginLoggingTo([lambda event: None],
+                                         redirectStandardIO=False,
+                                         discardBuffer=True)
+    except Exception:
+        pass
     return repo
 
 
